@@ -685,6 +685,7 @@ func runGammMath(seed int64, n int, dir string) {
 	g := &Gen{rand.New(rand.NewSource(seed))}
 	o := NewOut(dir)
 	ssSingleBudget = (4 + n/500) * envInt("VERIF_GAMM_SSJOIN", 1)
+	g.caseSSRoundingWitness(o)
 	for o.n < n {
 		switch k := g.Intn(100); {
 		case k < 16:
@@ -1203,6 +1204,58 @@ func (g *Gen) caseSSSwap(o *Out) {
 		}
 	}
 	oracleSSInvariant(o, op, p, post, line)
+}
+
+// directed: the family on which the solver's 36-decimal acceptance test lets the exact invariant fall (F45): scaling
+// factors 10^18, zero spread, reserves a few units above a point where the first solver midpoint is accepted; the witness
+// pool of Props/C04Stable first, then perturbations of it
+func (g *Gen) caseSSRoundingWitness(o *Out) {
+	base := []string{"1000000000000000040", "2000000000000000076", "3316624790355399980"}
+	for k := 0; k < 24; k++ {
+		p := &gPool{ss: true, total: pow10(20)}
+		for i, b := range base {
+			r, _ := new(big.Int).SetString(b, 10)
+			if k > 0 {
+				r.Add(r, big.NewInt(int64(g.Intn(200)-100)))
+			}
+			p.assets = append(p.assets, gAsset{d: gDenoms[i], r: r, sf: 1000000000000000000})
+		}
+		amt, _ := new(big.Int).SetString("1000000000000000039", 10)
+		if k > 0 {
+			amt.Add(amt, big.NewInt(int64(g.Intn(200)-100)))
+		}
+		exactOut := k%2 == 1
+		cs := []gCoin{{gDenoms[0], amt}}
+		if exactOut {
+			cs = []gCoin{{gDenoms[1], amt}}
+		}
+		dB := gDenoms[1]
+		if exactOut {
+			dB = gDenoms[0]
+		}
+		zero := big.NewInt(0)
+		r := ssSwap(p, cs, dB, zero, exactOut, false)
+		op := "ss.calcOut"
+		if exactOut {
+			op = "ss.calcIn"
+		}
+		line := fmt.Sprintf("gammmath %s %s %s %s %s", op, p.enc(), zero, encCoins(cs), dB)
+		o.Emit(line, obsVal(r), r.obs == "ok")
+		o.Count("class.ss.rounding-witness-family." + r.obs)
+		if r.obs != "ok" {
+			continue
+		}
+		post := p.clone()
+		ia, ib := post.idx(cs[0].d), post.idx(dB)
+		if exactOut {
+			post.assets[ia].r.Sub(post.assets[ia].r, amt)
+			post.assets[ib].r.Add(post.assets[ib].r, r.val)
+		} else {
+			post.assets[ia].r.Add(post.assets[ia].r, amt)
+			post.assets[ib].r.Sub(post.assets[ib].r, r.val)
+		}
+		oracleSSInvariant(o, op, p, post, line)
+	}
 }
 
 func (g *Gen) caseSSJoinExit(o *Out) {
